@@ -87,6 +87,7 @@ pub fn gen(seed: u64, tier: Tier) -> ScenarioSpec {
             spec.live = Some(gen_live(&mut rng, len, 0));
         }
     }
+    spec.knobs.insert("prelude".into(), gen_prelude(&mut rng, &[1, 4, 5], 8));
     spec
 }
 
@@ -94,6 +95,7 @@ pub fn run(spec: &ScenarioSpec, ctx: &mut Ctx) -> Result<(), Violation> {
     let m = recorder::build(&spec.recorder);
     ctx.rep.sim_time_ns += m.sim_time_ns();
     shape_of_model(ctx, &m, spec);
+    prelude(spec.knob("prelude"), spec.seed, &m, ctx);
     let n_unknown = m.events.iter().filter(|e| e.what == recorder::What::Unknown).count();
     let trailing = !spec.recorder.extras.trailing.is_empty();
     ctx.shape("extras", (n_unknown.min(3) as u64) | (trailing as u64) << 2);
